@@ -116,7 +116,7 @@ def oracle(case):
         if r["kind"] != "abort":
             hits.append(("continues-after-failure:" + r["failed_call"],
                          "start-up goes on (%s) although %s raised %s" % (r["kind"], r["failed_call"], f[1])))
-        elif len(r["trace"]) and r["attempts"] != f[0] + 1:
+        elif r["attempts"] != f[0] + 1:
             hits.append(("calls-after-failure:" + r["failed_call"],
                          "further external calls were made after %s failed" % r["failed_call"]))
     return hits
@@ -136,6 +136,8 @@ def sweep(configs, parallel=True):
 def run(tier):
     chk = Check("C19", tier)
     chk.proofs(extra_files=["Corr/K19.v"])
+    from c20 import fixup_discharged
+    fixup_discharged(chk)
     found = False
     cov = chk.coverage
 
